@@ -127,6 +127,8 @@ func c13Merge(dst, src map[string]any) {
 	}
 }
 
+const c13Secret = "s3cr3t" // the only candidate value of opaque settings
+
 type c13Path struct {
 	keys []string
 	typ  reflect.Type
@@ -215,7 +217,7 @@ func c13Candidates(p c13Path) []any {
 		}
 		return []any{[]any{"a1"}, []any{"b1", "b2"}}
 	case "configopaque.String":
-		return []any{"s3cr3t"}
+		return []any{c13Secret}
 	case "otlphttpexporter.EncodingType":
 		return []any{"json", "proto"}
 	case "zapcore.Level", "zap.AtomicLevel":
@@ -381,6 +383,13 @@ func c13Written(c c13Comp, paths [][]string, vals []any) (string, string, bool) 
 			return "written-key-missing-from-effective-config", desc + ": " + fp + " absent", true
 		}
 		want, _ := json.Marshal(vals[i])
+		// "(secrets redacted)": the value written into an opaque setting - a field or a map entry - shows as the marker
+		if sv, isStr := vals[i].(string); isStr && sv == c13Secret {
+			if c13NormVal(got) != "[REDACTED]" {
+				return "secret-not-redacted-in-effective-config", fmt.Sprintf("%s: wrote a secret into %s, the effective configuration handed to extensions has %s", desc, fp, got), true
+			}
+			continue
+		}
 		// typed leaves normalise their text form (e.g. verbosity detailed -> Detailed): compared case-insensitively
 		if !strings.EqualFold(c13NormVal(got), c13NormVal(string(want))) && c13NormVal(got) != "[REDACTED]" {
 			return "effective-value-differs-from-written", fmt.Sprintf("%s: wrote %s, effective configuration has %s", desc, want, got), true
